@@ -20,7 +20,8 @@ import (
 func genC04(t *rapid.T) caseProg {
 	cfg := gen.DefaultCfg()
 	cfg.MaxTop = 12
-	cfg.MaxBody = 2
+	cfg.MaxBody = 3
+	cfg.BindInBlocks = gen.Chance(t, 25, "bindinblocks")
 	cfg.MaxDepth = 1
 	cfg.ExprDepth = 1
 	cfg.PWild = 0
